@@ -46,3 +46,38 @@ package sessions
 //@   fresh result.0
 //@   ensures [C02] no_data_on_error: result.1 != nil ==> result.0 == nil
 //@   ensures [C02 C08] opened_under_this_cipher: result.1 == nil ==> result.0 != nil && called(@Unmarshal#1) && @Unmarshal#1 == nil && arg(@Unmarshal#1, 0) == c && arg(@Unmarshal#1, 1) == value
+
+// ---- C18: cookie attributes -----------------------------------------------------------------------------------
+//@ func (s *CookieStore) makeCookie(req *http.Request, name string, value string, expiration time.Duration, now time.Time) *http.Cookie
+//@   modifies nothing
+//@   fresh result
+//@   ensures [C18] flags_and_path: result != nil && result.Name == name && result.Value == value && result.Path == "/" && result.HttpOnly == s.CookieHTTPOnly && result.Secure == s.CookieSecure
+//@   ensures [C18] domain: result.Domain == (s.CookieDomain != "" ? s.CookieDomain : (@SplitHostPort#1.2 == nil ? @SplitHostPort#1.0 : req.Host)) && arg(@SplitHostPort#1, 0) == req.Host
+//@   ensures [C18] expiry: result.Expires == now + expiration
+
+//@ func (s *CookieStore) ClearSession(rw http.ResponseWriter, req *http.Request)
+//@   modifies clock
+//@   let C = arg(@SetCookie#1, 1)
+//@   ensures [C18 C01] expired_empty_session_cookie: called(@SetCookie#1) && arg(@SetCookie#1, 0) == rw && C.Name == s.Name && C.Value == "" && C.Expires < clock && C.Path == "/" && C.HttpOnly == s.CookieHTTPOnly && C.Secure == s.CookieSecure
+
+//@ func (s *CookieStore) SetCSRF(rw http.ResponseWriter, req *http.Request, val string)
+//@   modifies clock
+//@   let C = arg(@SetCookie#1, 1)
+//@   ensures [C18 C06] csrf_cookie: called(@SetCookie#1) && arg(@SetCookie#1, 0) == rw && C.Name == s.CSRFCookieName && C.Value == val && C.Path == "/" && C.HttpOnly == s.CookieHTTPOnly && C.Secure == s.CookieSecure
+
+//@ func (s *CookieStore) ClearCSRF(rw http.ResponseWriter, req *http.Request)
+//@   modifies clock
+//@   let C = arg(@SetCookie#1, 1)
+//@   ensures [C18] expired_empty_csrf_cookie: called(@SetCookie#1) && arg(@SetCookie#1, 0) == rw && C.Name == s.CSRFCookieName && C.Value == "" && C.Expires < clock && C.HttpOnly == s.CookieHTTPOnly && C.Secure == s.CookieSecure
+
+//@ func (s *CookieStore) SaveSession(rw http.ResponseWriter, req *http.Request, sessionState *SessionState) error
+//@   modifies clock
+//@   let C = arg(@setSessionCookie:SetCookie#1, 1)
+//@   ensures [C18 C02] seals_this_session: result == nil ==> called(@MarshalSession#1) && arg(@MarshalSession#1, 0) == sessionState && arg(@MarshalSession#1, 1) == s.CookieCipher && @MarshalSession#1.1 == nil && called(@setSessionCookie:SetCookie#1) && C.Name == s.Name && C.Value == @MarshalSession#1.0 && C.HttpOnly == s.CookieHTTPOnly && C.Secure == s.CookieSecure && C.Path == "/"
+//@   ensures [C02] no_cookie_on_error: result != nil ==> !called(@setSessionCookie:SetCookie#1)
+
+//@ func (s *CookieStore) LoadSession(req *http.Request) (*SessionState, error)
+//@   modifies nothing
+//@   fresh result.0
+//@   ensures [C02 C01] only_what_opens: result.1 == nil ==> result.0 != nil && called(@Cookie#1) && @Cookie#1.1 == nil && arg(@Cookie#1, 1) == s.Name && called(@UnmarshalSession#1) && @UnmarshalSession#1.1 == nil && result.0 == @UnmarshalSession#1.0 && arg(@UnmarshalSession#1, 0) == @Cookie#1.0.Value && arg(@UnmarshalSession#1, 1) == s.CookieCipher
+//@   ensures [C02 C01] no_session_on_error: result.1 != nil ==> result.0 == nil && (result.1 == http.ErrNoCookie || result.1 == ErrInvalidSession)
